@@ -517,6 +517,45 @@ func runC12(c *core.Ctx) {
 			}
 		}
 	})
+	// one Worker (and the package as a whole) used for a sequence of calls with different (length, target) pairs that
+	// share length*target products in various ways; every nonce must meet the target of its own call
+	for _, workers := range []int{1, 3, 16} {
+		w := powv2.New(workers)
+		type lt struct {
+			l int
+			t uint64
+		}
+		seq := []lt{{2000, 1}, {1, 2000}, {0, 2}, {0, 5000}, {8, 16}, {16, 8}, {0, 1}, {100, 20}, {92, 20}, {1, 1}, {7, 600}, {592, 7}}
+		for round, q := range seq {
+			data := make([]byte, q.l)
+			for i := range data {
+				data[i] = byte(i*7 + round + workers)
+			}
+			var nonce uint64
+			var err error
+			p := core.Catch(func() { nonce, err = w.Mine(context.Background(), data, q.t) })
+			c.Eval(1)
+			nontriv.Add(1)
+			cas := map[string]interface{}{"workers": workers, "call": round, "data_len": q.l, "target": q.t}
+			if p != nil || err != nil {
+				c.Violate("C12/reuse/error", fmt.Sprintf("call %d: %v %v", round, p, err), cas, "", nil)
+				break
+			}
+			if sc := refScoreV2FromHash(refPowHashV2(data, nonce), q.l+8); sc < q.t {
+				c.Violate("C12/reuse/unsound", fmt.Sprintf("call %d (data length %d, target %d) in a sequence of calls returned nonce %d with score %d", round, q.l, q.t, nonce, sc), cas, "", nil)
+				break
+			}
+			if workers == 1 {
+				lx := new(big.Int).Mul(big.NewInt(int64(q.l+8)), new(big.Int).SetUint64(q.t))
+				for n := uint64(0); n < nonce/64*64 && n < 20000; n++ {
+					if refDifficulty(refPowHashV2(data, n)).Cmp(lx) > 0 {
+						c.Violate("C12/reuse/passed-over", fmt.Sprintf("call %d (data length %d, target %d): nonce %d in an earlier block strictly qualifies, %d was returned", round, q.l, q.t, n, nonce), cas, "", nil)
+						break
+					}
+				}
+			}
+		}
+	}
 	c.Sample(map[string]interface{}{"e2e": "11-byte data, target 6561/19, single worker: every nonce of every earlier 64-block checked with the reference difficulty"})
 
 	exhaustive := false
